@@ -660,7 +660,7 @@ func main() {
 		Name: "c05",
 		Rule: "cases 0,1,2 mod 4: a generated world (mutable or basic; 2-6 features: points, paths, star-shaped non-convex areas with holes and 1-4 polygons, occasionally a polygon without loops, relations; extent 0.6 m .. 6000 km) and 6 (query, feature) pairs: cells / cap / point / polyline / multipolygon (1-4 parts, the part that meets the feature usually not the first) / intersects-feature, queries aimed at vertices, interiors (off-centre, inside spikes and holes) and sub-millimetre neighbourhoods of the feature; the op carries the S2 primitive table, the answer is Go's Matches. cases 3 mod 4: 4 `pip` ops on an E7-integer star polygon (<= 550 m, |lat| <= 70, optional hole). non-trivial = a table with both true and false entries, or a pip case; distinct = by hash of the op text",
 		Quick:    2400,
-		Thorough: 80000,
+		Thorough: 60000,
 		Corpus:   corpus,
 		Case: func(c *hx.Ctx) {
 			if c.CaseNo%4 == 3 {
